@@ -886,6 +886,11 @@ func (st *AclState) applyReadKeyChange(ch *aclrecordproto.AclReadKeyChange, reco
 			return err
 		}
 	}
+	if _, exists := st.keys[record.Id]; exists {
+		// keys and readKeyChanges are indexed by record id: a second rotation in the same record would
+		// overwrite the first one's keys and break unpackAllKeys for every account admitted later
+		return ErrReadKeyChangeNotAlone
+	}
 	st.readKeyChanges = append(st.readKeyChanges, record.Id)
 	mkPubKey, err := st.keyStore.PubKeyFromProto(ch.MetadataPubKey)
 	if err != nil {
